@@ -117,9 +117,12 @@ FIXED = {None: 0, "FRAME": 1, "SIGNAL": 2, "ecu": 3, "ECU": 4, "ATTRIBUTES": 5, 
 DEFLISTS = ("DefineList", "ECU Defines", "Frame Defines", "Signal Defines")
 
 
-def type_code(node, parent, I):
+ROOT = "<root>"
+
+
+def type_code(node, parent, I, below_root=False):
     t = node.type
-    pt = parent.type if parent is not None else "<top>"
+    pt = ROOT if below_root else (parent.type if parent is not None else "<top>")
     try:
         if pt == "ATTRIBUTES":
             return [20, I(t), 0]
@@ -139,7 +142,7 @@ def type_code(node, parent, I):
             return [12, k, 0]
         if pt in DEFLISTS and t.startswith("Define") and t not in ("Definition", "DefaultValue"):
             return [17, I(t[len("Define"):]), 0]
-        if pt is None and isinstance(t, str) and t.startswith("valuetable "):
+        if pt == ROOT and isinstance(t, str) and t.startswith("valuetable "):
             return [10, I(t[len("valuetable "):]), 0]
         if pt == "SIGNAL" and t.startswith("receiver "):
             return [37, I(t[len("receiver "):]), 0]
@@ -163,7 +166,12 @@ def enc_tree(res, I, vtids):
     out = []
 
     def go(n, parent, d):
-        out.append([d, RCODE.get(n.result, -2)] + type_code(n, parent, I) + [ref_code(n, I, vtids)])
+        if d == 0:
+            # the root: the property says nothing about its label, type or reference - only whether it marks a difference
+            # (None and "equal" both mark none) is carried into the comparison with the model
+            out.append([0, 5 if n.result in (None, "equal") else RCODE.get(n.result, -2), 0, 0, 0, -1])
+        else:
+            out.append([d, RCODE.get(n.result, -2)] + type_code(n, parent, I, below_root=(d == 1)) + [ref_code(n, I, vtids)])
         for c in n.children:
             go(c, n, d + 1)
     go(res, None, 0)
@@ -1318,8 +1326,9 @@ def run(chk):
                 chk.violation(failure_class("iff-" + tag + ("-false-alarm" if exp else "-missed"), res, bits, a, b, not exp),
                               what, describe(a, b, bits), exp,
                               dict(silent=silent(res), report=brief_tree(res)))
-            if (res.result is None) != silent(res):
-                chk.violation("root-result", "root result is not None exactly when nothing is reported", describe(a, b, bits))
+            if (res.result in (None, "equal")) != silent(res):
+                chk.violation("root-result", "the root is marked as a difference although nothing is reported, or not marked although "
+                              "something is (unmarked = result None or 'equal')", describe(a, b, bits), silent(res), res.result)
             if j in tie_pick:
                 tie(case, enc, dict(tag=tag, ignore=bits))
 
